@@ -1352,7 +1352,7 @@ void observed()
       if (!ok)
       {
         ++surprises;
-        vf::observation(std::string("iterator::base: ") + what + " disagrees with the wrapped iterator (observed only)");
+        vf::violation(std::string("iterator::base/") + what, "mismatch", std::string("iterator::base: ") + what + " disagrees with the wrapped iterator");
       }
     };
     for (unsigned len = 0; len <= 7; ++len)
@@ -1421,15 +1421,15 @@ void observed()
         ++n;
         auto const s = fcppt::range::size(fcppt::make_int_range(b, en));
         if (static_cast<i128>(s) != (en > b ? en - b : 0))
-          vf::observation("range::size(make_int_range(" + std::to_string(b) + "," + std::to_string(en) + ")) = " +
-                          s128(static_cast<i128>(s)) + " (observed only)");
+          vf::violation("range::size/make_int_range", "mismatch", "range::size(make_int_range(" + std::to_string(b) + "," + std::to_string(en) + ")) = " +
+                          s128(static_cast<i128>(s)));
       }
     auto static_range = [&](auto range, std::vector<i128> const &want) {
       std::vector<i128> got;
       fcppt::algorithm::loop(range, [&](auto tag) { got.push_back(static_cast<i128>(fcppt::tag_type<decltype(tag)>::value)); });
       ++n;
       if (got != want)
-        vf::observation("math::int_range_count<" + std::to_string(want.size()) + "> enumerates " + show_seq(got) + " (observed only)");
+        vf::violation("math::int_range_count/sequence", "mismatch", "math::int_range_count<" + std::to_string(want.size()) + "> enumerates " + show_seq(got));
     };
     static_range(fcppt::math::int_range_count<0>{}, {});
     static_range(fcppt::math::int_range_count<1>{}, {0});
